@@ -36,7 +36,7 @@ DESIGN_REF = "DESIGN.md §5 C07"
 USET = (["evsig_cb.%d:66" % i for i in range(7)] + ["evsig_dealloc_.%d:66" % i for i in range(3)] +
         ["evmap_io_active_.0:3", "evmap_signal_active_.0:4", "event_base_loop.16:4", "event_signal_closure.6:6", "event_process_active_single_queue.21:8", "noted.0:5", "read.0:5",
          "vp_sigfd_of.0:5", "vp_sigfd_for_sig.0:5", "kernel_reports.0:5", "evmap_signal_foreach_signal.0:34", "evmap_io_foreach_fd.0:66",
-         "evmap_signal_clear_.0:66", "vp_realloc_signal.0:66"])
+         "evmap_signal_clear_.0:66", "vp_realloc_signal.0:66", "check_wiring.0:3"])
 
 SHAPES = [
     ("basic", "ADD(0) DELIVER(A) LOOP DEL(0) FREE", []),
@@ -49,6 +49,13 @@ SHAPES = [
     ("late_add_sees_pending", "ADD(1) DELIVER(A) ADD(0) LOOP DEL(0) DEL(1)", ["VP_WIT_BOTH"]),
     ("readd", "ADD(0) DEL(0) DELIVER(A) ADD(0) DELIVER(A) LOOP DEL(0) FREE", []),
     ("del_before_loop", "ADD(0) DELIVER(A) DEL(0) LOOP ADD(0) LOOP DEL(0)", []),
+    # event_reinit: dealloc with live saved dispositions, then re-add of every signal; both signals, the higher one (B) last / first
+    ("reinit_two_signals", "ADD(0) ADD(2) REINIT DELIVER(B) DELIVER(A) LOOP DEL(0) DEL(2) FREE", []),
+    ("reinit_then_free", "ADD(2) ADD(0) REINIT DELIVER(B) LOOP FREE", []),
+    ("reinit_one_signal", "ADD(0) ADD(1) DELIVER(A) REINIT DELIVER(A) LOOP DEL(1) DEL(0)", ["VP_WIT_BOTH"]),
+    # two different signals, then the one added FIRST is delivered (signal mask handling of the later add)
+    ("first_of_two_delivered", "ADD(0) ADD(2) DELIVER(A) LOOP DEL(2) DELIVER(A) LOOP DEL(0)", []),
+    ("second_then_first", "ADD(2) ADD(0) DELIVER(B) LOOP DELIVER(A) DELIVER(B) LOOP FREE", []),
 ]
 PIPE_ONLY = [
     ("refused_byte", "ADD(0) REFUSE DELIVER(A) LOOP DELIVER(A) LOOP DEL(0)", []),
